@@ -61,7 +61,13 @@ def c_u256_idiv_u128_special(ex, st, fr, callee, args):
     BI._use("CONTRACT u256_idiv_u128_special: pre xh < y, y >= 2^64 (obligation C16/K2b)")
     pre = T.band(T.lt(xh.t, y.t), T.le(1 << 64, y.t))
     if not ex.proves(st, pre, 5000):
-        raise Unsupported("precondition of u256_idiv_u128_special not provable at call site")
+        # the callee starts with debug_assert!(*xh < y): with debug assertions on, a call that may violate it can panic
+        if isinstance(pre, bool):
+            return Outcome("panic", None, st, "assertion failed: *xh < y (precondition of u256_idiv_u128_special)")
+        from mir2smt.exec import Fork
+        if pre.get_id() not in st.true_ids:
+            raise Fork([(z3.Not(pre), lambda s2: s2.tags.__setitem__("finish_panic", "assertion failed: *xh < y (precondition of u256_idiv_u128_special)")),
+                        (pre, None)])
     r = c_u256_idiv_u128(ex, st, fr, callee, args)
     # post: quotient < 2^128, i.e. *xh == 0 (as written by the code)
     return r
